@@ -4,7 +4,7 @@ Artifacts are cached under /verif/.work/ir/<key>/ where key hashes every file un
 flags, so an edit to the repository always yields a fresh build and an unchanged tree is not rebuilt
 by each of the 20 checks.
 """
-import hashlib, os, subprocess, sys, glob, fcntl, shutil, json
+import hashlib, os, re, subprocess, sys, glob, fcntl, shutil, json
 
 REPO = os.environ.get('GLV_REPO', '/repo')
 SRC = os.path.join(REPO, 'src')
@@ -163,6 +163,81 @@ def load_ast(config, filt, omp=True):
         out.append(obj)
         i = j
     return out
+
+
+CUDA_DRIVER = '''#include <cstdint>
+#include <cstddef>
+#define __USE_CUDA__ 1
+#define __device__
+#define __constant__
+#define __noinline__ __attribute__((noinline))
+#define __host__
+#define __forceinline__ __inline__
+struct __dim3_stub { unsigned x, y, z; };
+static __dim3_stub threadIdx, blockIdx, blockDim, gridDim;
+#include "gl64_t_norm.cuh"
+#undef inline
+#undef asm
+'''
+
+
+def normalise_cuda_header(text):
+    """make the host C++ front end accept what nvcc accepts in gl64_t.cuh, without touching any instruction:
+    (1) `%name` (a PTX register / predicate name) inside a string literal becomes `%%name`, the GNU-asm spelling of a
+        literal percent sign; operand references %0..%9 stay; (2) a missing comma between two asm operands is inserted."""
+    def lit(m):
+        return re.sub(r'%(?=[A-Za-z_])', '%%', m.group(0))
+    out = []
+    for line in text.split('\n'):
+        code = line.split('//')[0] if 'asm' in line or line.lstrip().startswith(':') or line.lstrip().startswith('"') else None
+        if code is not None and re.search(r'asm\s*\(\s*"[^"]*"\s*\)\s*;', code):
+            code = None                      # basic asm (no operands): '%' is not an escape there
+        if code is not None:
+            rest = line[len(code):]
+            code = re.sub(r'"(?:[^"\\]|\\.)*"', lit, code)
+            code = re.sub(r'(\))(\s+)("[=+][a-z]+"\s*\()', r'\1,\2\3', code)
+            line = code + rest
+        out.append(line)
+    return '\n'.join(out)
+
+
+def cuda_ir_path(arch, sroa=True):
+    """IR of the device field type (src/gl64_t.cuh) for one __CUDA_ARCH__ value, through the host C++ front end:
+    CUDA qualifiers are defined away, inline PTX strings are kept verbatim as inline-asm calls for glv/ptx.py"""
+    d = os.path.join(cache_dir(), 'cuda')
+    os.makedirs(d, exist_ok=True)
+    base = os.path.join(d, 'gl64_%d' % arch)
+    raw = base + '.ll'
+    out = base + ('.sroa.ll' if sroa else '.ll')
+    if os.path.exists(out) and os.path.getsize(out) > 0:
+        return out
+    lk = _locked(base)
+    try:
+        if not (os.path.exists(raw) and os.path.getsize(raw) > 0):
+            with open(os.path.join(SRC, 'gl64_t.cuh')) as f:
+                text = f.read()
+            with open(os.path.join(d, 'gl64_t_norm.cuh'), 'w') as f:
+                f.write(normalise_cuda_header(text))
+            drv = os.path.join(d, 'drv.cpp')
+            with open(drv, 'w') as f:
+                f.write(CUDA_DRIVER)
+            _run(['clang++', '-std=gnu++17', '-D__CUDA_ARCH__=%d' % arch, '-I' + d, '-O0', '-Xclang', '-disable-O0-optnone', '-g',
+                  '-fno-discard-value-names', '-femit-all-decls', '-S', '-emit-llvm', drv, '-o', raw + '.tmp'], 'clang (device field type, arch %d)' % arch)
+            os.replace(raw + '.tmp', raw)
+        if sroa and not (os.path.exists(out) and os.path.getsize(out) > 0):
+            _run(['opt-14', '-S', '-passes=function(sroa,early-cse)', raw, '-o', out + '.tmp'], 'opt (sroa)')
+            os.replace(out + '.tmp', out)
+    finally:
+        lk.close()
+    return out
+
+
+def cuda_module(arch, sroa=True):
+    from . import ir
+    k = ('cuda', arch, sroa)
+    if k not in _mods:
+        _mods[k] = ir.Module(cuda_ir_path(arch, sroa))
+    return _mods[k]
 
 
 _mods = {}
